@@ -43,17 +43,11 @@ structure In where
   ready    : Bool      -- tx.ready
 deriving Repr
 
-structure Out where
-  valid   : Bool
-  first   : Bool
-  last    : Bool
-  payload : Nat
-  stall   : Bool
-deriving Repr, DecidableEq
+abbrev Out := Beat
 
 def init : State := ⟨.idle, 0, 0, 0, 0, 0, 0, 0⟩
 
-def quiet : Out := ⟨false, false, false, 0, false⟩
+def quiet : Out := Beat.quiet
 
 /-- the value the `length` register takes at the next edge. -/
 def nextLength (mps : Nat) (length startPos : Nat) : Nat :=
